@@ -439,9 +439,43 @@ type c03PipeConn struct {
 
 func (c c03PipeConn) RemoteAddr() net.Addr { return c.remote }
 
+// c03TCPPair returns the two ends of a loopback TCP connection (IPv6 loopback for v6 cases when the
+// host has one).
+func c03TCPPair(v6 bool) (cli, srv net.Conn, err error) {
+	addr := "127.0.0.1:0"
+	if v6 {
+		addr = "[::1]:0"
+	}
+	ln, err := net.Listen("tcp", addr)
+	if err != nil && v6 {
+		ln, err = net.Listen("tcp", "127.0.0.1:0")
+	}
+	if err != nil {
+		return nil, nil, err
+	}
+	defer ln.Close()
+	type acc struct {
+		c   net.Conn
+		err error
+	}
+	ch := make(chan acc, 1)
+	go func() { c, err := ln.Accept(); ch <- acc{c, err} }()
+	cli, err = net.DialTimeout("tcp", ln.Addr().String(), 10*time.Second)
+	if err != nil {
+		return nil, nil, err
+	}
+	a := <-ch
+	if a.err != nil {
+		cli.Close()
+		return nil, nil, a.err
+	}
+	return cli, a.c, nil
+}
+
 func TestVerif_C03_realtime(t *testing.T) {
-	rec := vh.NewRec("C03", "realtime", "probes from the 'probes' generator (without pauses) written segment by segment into a net.Pipe whose other end is handed to handleNewTCPConn, all running concurrently in real time; oracle: handler returns after >= 5 s and <= 12 s, the prober receives nothing before that; non-trivial as in 'probes'; distinct by case")
+	rec := vh.NewRec("C03", "realtime", "probes from the 'probes' generator (without pauses) written segment by segment into a net.Pipe or (every second case) a real loopback TCP connection whose other end is handed to handleNewTCPConn, all running concurrently in real time; oracle: handler returns after >= 5 s and <= 12 s, the prober receives nothing - no byte, no FIN, no RST - before 5 s; non-trivial as in 'probes'; distinct by case")
 	defer rec.Flush()
+	rec.Require("real-tcp-socket", "real-tcp-socket:phantom-without-registrations", "late-segment")
 	defer aSilenceStdout()()
 	if vh.ReplayFile() != "" {
 		t.Skip("real-time tier is not replayable")
@@ -455,6 +489,7 @@ func TestVerif_C03_realtime(t *testing.T) {
 		key   string
 		msg   string
 		pause time.Duration
+		tcp   bool
 	}
 	var items []*item
 	ge := aNewEnv(t)
@@ -472,6 +507,12 @@ func TestVerif_C03_realtime(t *testing.T) {
 		if len(items)%3 == 0 && len(c.Script.Reads) > 0 {
 			it.pause = []time.Duration{1500 * time.Millisecond, 3 * time.Second, 4700 * time.Millisecond}[(len(items)/3)%3]
 		}
+		it.tcp = len(items)%2 == 1
+		if len(items)%4 == 1 {
+			// every fourth case: a real socket on a phantom without any registration (the handler's
+			// read-and-discard path)
+			it.c.Regs, it.c.Unval = nil, nil
+		}
 		items = append(items, it)
 	})
 	var wg sync.WaitGroup
@@ -484,14 +525,28 @@ func TestVerif_C03_realtime(t *testing.T) {
 		wg.Add(1)
 		go func(it *item) {
 			defer wg.Done()
-			cli, srv := net.Pipe()
+			var cli, srv net.Conn
+			var handed net.Conn
+			if it.tcp {
+				// a real socket pair: the handler gets a *net.TCPConn, as in production
+				var err error
+				cli, srv, err = c03TCPPair(it.c.V6)
+				if err != nil {
+					it.key, it.msg = "harness", fmt.Sprintf("loopback TCP pair: %v", err)
+					return
+				}
+				handed = srv
+			} else {
+				cli, srv = net.Pipe()
+				remote, _ := net.ResolveTCPAddr("tcp", it.c.Script.Remote)
+				handed = c03PipeConn{Conn: srv, remote: remote}
+			}
 			defer cli.Close()
-			remote, _ := net.ResolveTCPAddr("tcp", it.c.Script.Remote)
 			start := time.Now()
 			done := make(chan any, 1)
 			go func() {
 				defer func() { done <- recover() }()
-				it.e.cm.handleNewTCPConn(it.e.rm, c03PipeConn{Conn: srv, remote: remote}, aPhantom(0, it.c.V6))
+				it.e.cm.handleNewTCPConn(it.e.rm, handed, aPhantom(0, it.c.V6))
 				srv.Close() // what handleNewConn does when the handler returns
 			}()
 			// prober: write the segments (every third case: the last segment arrives late, after a
@@ -508,6 +563,8 @@ func TestVerif_C03_realtime(t *testing.T) {
 				}
 			}()
 			got := make(chan int, 1)
+			var endAt time.Duration
+			var endErr error
 			go func() {
 				buf := make([]byte, 64)
 				total := 0
@@ -515,6 +572,7 @@ func TestVerif_C03_realtime(t *testing.T) {
 					k, err := cli.Read(buf)
 					total += k
 					if err != nil {
+						endAt, endErr = time.Since(start), err
 						got <- total
 						return
 					}
@@ -537,6 +595,9 @@ func TestVerif_C03_realtime(t *testing.T) {
 				if k > 0 && it.key == "" {
 					it.key, it.msg = "wrote-bytes", fmt.Sprintf("the prober received %d byte(s)", k)
 				}
+				if it.key == "" && endAt < 4950*time.Millisecond {
+					it.key, it.msg = "early-close", fmt.Sprintf("the prober's read ended after %v of real time (< 5 s) with %v: the station closed (or half-closed) the connection before its deadline", endAt, endErr)
+				}
 			case <-time.After(3 * time.Second):
 			}
 		}(it)
@@ -547,6 +608,12 @@ func TestVerif_C03_realtime(t *testing.T) {
 		cl := []string{"kind:" + it.c.Kind}
 		if it.pause > 0 {
 			cl = append(cl, "late-segment")
+		}
+		if it.tcp {
+			cl = append(cl, "real-tcp-socket")
+			if on == 0 {
+				cl = append(cl, "real-tcp-socket:phantom-without-registrations")
+			}
 		}
 		rec.Case(on > 0 && it.c.Total >= 32, vh.Digest(it.c), it.c, cl...)
 		if it.key == "harness" {
